@@ -1,6 +1,8 @@
 package zzh
 
 import (
+	"strings"
+
 	"github.com/alowayed/go-univers/pkg/spec/vers"
 	"github.com/alowayed/go-univers/pkg/univers"
 	vv "github.com/alowayed/go-univers/pkg/zzvv"
@@ -86,7 +88,8 @@ func c19Hist[V univers.Version[V], VR univers.VersionRange[V]](e univers.Ecosyst
 		if r3, e3 := e.NewVersionRange(r2); e3 == nil {
 			_ = r3.Contains(vc)
 			_ = r3.Contains(va)
-			_ = r3.String()
+			// a range parsed after others still carries its own text (C18's oracle for String)
+			vv.Assert(r3.String() == strings.TrimSpace(r2), "C19: String() of a range depends on what was parsed before it")
 		}
 		_ = vc.String()
 	}
@@ -97,8 +100,33 @@ func c19Hist[V univers.Version[V], VR univers.VersionRange[V]](e univers.Ecosyst
 	// fresh values built from the same texts agree with the shared ones
 	va2, _ := e.NewVersion(a)
 	vr2, _ := e.NewVersionRange(r)
+	vv.Assert(va2.String() == strings.TrimSpace(a) && vr2.String() == strings.TrimSpace(r), "C19: String() of a freshly parsed value depends on what was parsed before it")
 	vv.Assert(va2.Compare(vb) == x1, "C19: a freshly parsed version compares differently from a used one")
 	vv.Assert(vr2.Contains(vb) == z1, "C19: a freshly parsed range answers differently from a used one")
+}
+
+// c19Spell: two spellings of one range parsed one after the other (either may be rejected): each
+// accepted one carries its own text, whichever came first, and a third parse of the first agrees.
+func c19Spell[V univers.Version[V], VR univers.VersionRange[V]](e univers.Ecosystem[V, VR], a, r, r2 string) {
+	va, ea := e.NewVersion(a)
+	vv.Assume(ea == nil)
+	vv.Reached()
+	r1, e1 := e.NewVersionRange(r)
+	in1 := false
+	if e1 == nil {
+		in1 = r1.Contains(va)
+		vv.Assert(r1.String() == strings.TrimSpace(r), "C19: String() of a range is not its own text")
+	}
+	if rb, eb := e.NewVersionRange(r2); eb == nil {
+		vv.Assert(rb.String() == strings.TrimSpace(r2), "C19: String() of a range depends on what was parsed before it")
+		_ = rb.Contains(va)
+	}
+	rc, ec := e.NewVersionRange(r)
+	vv.Assert((ec == nil) == (e1 == nil), "C19: acceptance of a range depends on what was parsed before it")
+	if ec == nil && e1 == nil {
+		vv.Assert(rc.String() == strings.TrimSpace(r), "C19: String() of a range depends on what was parsed before it")
+		vv.Assert(rc.Contains(va) == in1, "C19: Contains of a range depends on what was parsed before it")
+	}
 }
 
 // C19VersHist: vers.Contains(r1, v1) is the same before and after vers.Contains(r2, v2).
